@@ -117,6 +117,9 @@ type Op struct {
 	// (drivers that can inject this set wl.EntropyFault; elsewhere the fields are ignored)
 	EntropySkip int `json:"entropy_skip,omitempty"`
 	EntropyFail int `json:"entropy_fail,omitempty"`
+	// genpub only: the commit of the issuing transaction fails (needs a wallet opened over a FaultDB: Env.Wrap set by the
+	// driver and at least one restart; otherwise the request runs without a fault)
+	CommitFault bool `json:"commit_fault,omitempty"`
 }
 
 // EntropyFault, when a driver sets it, arms (fail > 0) or disarms (0, 0) a transient failure of the entropy source
@@ -446,7 +449,25 @@ func (e *Env) Do(op Op) Res {
 			}
 		}
 	case "genpub":
+		var fdb *FaultDB
+		if op.CommitFault {
+			if fdb, _ = w.Store.(*FaultDB); fdb != nil {
+				fdb.Arm(FaultPlan{Kind: "commit", At: 1})
+			}
+		}
 		pk, ord, err := w.M.GenerateNewPublicKey()
+		if fdb != nil {
+			fdb.Disarm()
+			e.Trace[len(e.Trace)-1] += fmt.Sprintf(" commit_fault_fired=%v err=%v", fdb.Fired, err)
+			if fdb.Fired {
+				e.Run.Count("genpub_requests_with_failed_commit", 1)
+				if err == nil {
+					// not judged here: what was handed out is recorded as issued, and the requests that follow decide
+					// (a key returned twice, an ordinal reused or skipped, a lookup that fails after the restart)
+					e.Run.Count("genpub_requests_reporting_success_despite_failed_commit", 1)
+				}
+			}
+		}
 		res.Err, res.Ack = err, err == nil
 		if err == nil {
 			if !hasKs {
